@@ -60,7 +60,13 @@ func (ml *msgListenerV1) Receive(msg event.MessageMetadata) error {
 		// Did not match the watched mailbox name.
 		return nil
 	}
-	ml.c <- msg
+	select {
+	case ml.c <- msg:
+	default:
+		// The client is not keeping up: give up on it rather than stall the hub for everyone.
+		go ml.Close()
+		return errListenerQueueFull
+	}
 	return nil
 }
 
